@@ -23,6 +23,20 @@ def make_jobs(ctx):
             jobs.append(Job("%s.%s" % (tag, h[2:]), os.path.join(H, "c19_swap.c"), entry=h, includes=inc, defines=defs, big_endian=True,
                             funcs=[("buffer.h:" if "buffer" in h else "w2c2_base.h:") + fn],
                             info=dict(layer="R", header_variant=variant, big_endian_model=True)))
+    # the WASI host functions write their results into the guest's linear memory: on a big-endian host they must go through the same
+    # byte-reversing store helpers (the layout obligations of C12/C15 state the guest-visible LITTLE-endian image; here on the big-endian model)
+    from . import c12, c15
+    want = ("W.fd_seek.p1", "W.fd_tell", "W.fd_filestat_get.p1", "W.fd_filestat_get.un", "W.fd_read.p1", "W.fd_write.p1", "W.args_sizes_get", "W.args_get.buf1",
+            "W.clock_time_get", "W.clock_res_get")
+    for mod in (c12, c15):
+        for j in mod.make_jobs(ctx):
+            if j.name in want:
+                j.name = "BE." + j.name
+                j.big_endian = True
+                j.defines = list(j.defines) + ["WASM_ENDIAN=WASM_BIG_ENDIAN"]
+                j.replay = None
+                j.info = dict(j.info or {}, big_endian_model=True)
+                jobs.append(j)
     # the little-endian configuration of the same functions is C05/C16; the float immediate readers on the LE model:
     inc = [os.path.join(ctx.repo, "w2c2")]
     for h in ("h_bufferReadF32", "h_bufferReadF64"):
